@@ -32,6 +32,8 @@ func NewTicker(handler func(), interval time.Duration, ctx ...context.Context) (
 		interval:  interval,
 	}
 
+	// register the goroutine before it is started, so that WaitForGracefulShutdown cannot pass before run() got to it
+	ticker.gracefulShutdown.Add(1)
 	go ticker.run()
 
 	return
@@ -57,7 +59,6 @@ func (t *Ticker) run() {
 	ticker := time.NewTicker(t.interval)
 	defer ticker.Stop() // prevent the ticker from leaking
 
-	t.gracefulShutdown.Add(1)
 	defer t.gracefulShutdown.Done()
 
 	for {
